@@ -33,6 +33,10 @@ ASSUMPTIONS = [
 
 
 MUTANTS = [
+    ("seed test on the pixel of highest flux", "AegeanTools/source_finder.py",
+     "        if np.any(snr[xmin:xmax, ymin:ymax][own] > seed_clip):",
+     "        pk = np.argmax(abs(im - bkg)[xmin:xmax, ymin:ymax][own])\n"
+     "        if snr[xmin:xmax, ymin:ymax][own][pk] > seed_clip:", "C02-R2"),
     ("background subtracted in place from the caller's image",
      "AegeanTools/source_finder.py",
      "    snr = abs(im - bkg) / rms\n",
@@ -200,7 +204,8 @@ def run(ctx):
             and norm(s.targets[0]) == snr_name]
     if len(sdef) != 1:
         raise AnalysisError("C02-R2: definition of %s not unique" % snr_name)
-    sv = sdef[0].value
+    from ..core import expand_locals
+    sv = expand_locals(fi.node, sdef[0].value)
     shape_ok = isinstance(sv, ast.BinOp) and isinstance(sv.op, ast.Div) and \
         isinstance(sv.left, ast.Call) and norm(sv.left.func) in (
             "abs", "np.abs", "numpy.abs", "np.fabs") and \
@@ -231,6 +236,41 @@ def run(ctx):
         ctx.check("C02-R2", fi, "seed test " + norm(c), strict,
                   "the seed test must be strictly greater than the seed "
                   "threshold", node=c)
+        # ... and it asks whether ANY own pixel is above the threshold: the
+        # comparison is aggregated with any() over the own pixels, or made
+        # on the maximum of the signal-to-noise itself.  One selected pixel
+        # (the brightest in flux, the first, the centre) is not the same
+        # question when the noise varies across the island.
+        pm_ = {}
+        for st_ in m.loop.body:
+            for x_ in ast.walk(st_):
+                for ch_ in ast.iter_child_nodes(x_):
+                    pm_[ch_] = x_
+        up = pm_.get(c)
+        any_form = isinstance(up, ast.Call) and (
+            norm(up.func).split(".")[-1] == "any" or
+            isinstance(up.func, ast.Attribute) and up.func.attr == "any")
+        if isinstance(up, ast.Attribute) and up.attr == "any":
+            any_form = True
+        side_ = c.left if seed_p not in names_in(c.left) else \
+            c.comparators[0]
+        side_ = expand_locals(fi.node, side_)
+        max_form = isinstance(side_, ast.Call) and \
+            norm(side_.func).split(".")[-1] in ("max", "nanmax", "amax") \
+            and snr_name in names_in(side_)
+        picks = [x_ for x_ in ast.walk(side_) if isinstance(x_, ast.Call) and
+                 norm(x_.func).split(".")[-1] in (
+                     "argmax", "nanargmax", "argmin", "nanargmin",
+                     "unravel_index")]
+        ctx.check("C02-R2", fi, "seed test over all own pixels " +
+                  norm(c, 60), (any_form or max_form) and not picks,
+                  "the seed condition must hold for ANY pixel of the island "
+                  "(np.any(snr[own] > seed) or max(snr[own]) > seed); here "
+                  "it is evaluated on %s: an island whose pixel of highest "
+                  "signal-to-noise is not that pixel is lost although it "
+                  "has a seed" % ("a pixel picked by %s" % norm(picks[0], 50)
+                                  if picks else "something else than all "
+                                  "own pixels"), node=c)
     # island mask
     def other_label(p_):
         """labels != id,  or the complement of the exact own-pixel mask"""
